@@ -860,8 +860,50 @@ func (e *evalCtx) callExpr(x *sx) sval {
 		return boolv(eq(sel(t.h.get(e.st, hv), "(sl_arr "+v.term+")"), sel(t.h.get(v.st, hv), "(sl_arr "+v.term+")")))
 	case "fresh_arr":
 		// fresh_arr(s): the backing array of slice s was allocated during this call
+		// fresh_arr(s, "site"): ... was allocated after that site was (last) passed
 		v := e.eval(args[0])
+		if len(args) == 2 {
+			if args[1].op != "str" {
+				e.fail("fresh_arr(s, \"site\")")
+			}
+			st, ok := t.siteState[args[1].val]
+			if !ok {
+				e.fail("unknown site %q", args[1].val)
+			}
+			return boolv("(> (sl_arr " + v.term + ") " + t.h.get(st, "alloc") + ")")
+		}
 		return boolv("(> (sl_arr " + v.term + ") " + t.h.get(e.old, "alloc") + ")")
+	case "atoi_ok", "atoi_val":
+		// the trusted model of strconv.Atoi: atoi_ok(s) <=> Atoi(s) succeeds, atoi_val(s) its value
+		v := e.eval(args[0])
+		if v.sort != "Str" {
+			e.fail("%s needs a string", f.val)
+		}
+		if f.val == "atoi_ok" {
+			return boolv("(atoi_ok " + v.term + ")")
+		}
+		return intv("(atoi_val " + v.term + ")")
+	case "str":
+		// str(b): the string conversion string(b) of a byte slice (same term the code's conversion gets)
+		v := e.eval(args[0])
+		if v.sort != "Slice" {
+			e.fail("str() needs a byte slice")
+		}
+		t.h.reg("E:Int", "(Array Int (Array Int Int))")
+		arr := sel(t.h.get(e.elemState(v), "E:Int"), "(sl_arr "+v.term+")")
+		return sval{term: fmt.Sprintf("(bytes_str %s (sl_off %s) (sl_len %s))", arr, v.term, v.term), sort: "Str", typ: types.Typ[types.String]}
+	case "deref":
+		// deref(p): the value p points to (pointer to a scalar)
+		v := e.eval(args[0])
+		pt, ok := v.typ.Underlying().(*types.Pointer)
+		if !ok {
+			e.fail("deref of non-pointer")
+		}
+		if st, ok := t.isStruct(pt.Elem()); ok && st.NumFields() > 0 {
+			e.fail("deref of struct pointer: use field selectors")
+		}
+		hv := t.cellHV(pt.Elem())
+		return sval{term: sel(t.h.get(e.st, hv), v.term), sort: t.sortOf(pt.Elem()), typ: pt.Elem()}
 	case "fresh":
 		// fresh(p): allocated during this call (not present in the old state)
 		v := e.eval(args[0])
@@ -930,6 +972,12 @@ func (e *evalCtx) seqEq(a, b sval) string {
 	hv := t.elemHV(sl.Elem())
 	aa := sel(t.h.get(e.elemState(a), hv), "(sl_arr "+a.term+")")
 	ba := sel(t.h.get(e.elemState(b), hv), "(sl_arr "+b.term+")")
+	if hv == "E:Int" {
+		// byte/integer sequences: the same (axiomatized) predicate the bytes.Equal model uses,
+		// so that a witness found by the code carries over to an exists() in a contract
+		t.h.reg("E:Int", "(Array Int (Array Int Int))")
+		return fmt.Sprintf("(byteseq %s (sl_off %s) (sl_len %s) %s (sl_off %s) (sl_len %s))", aa, a.term, a.term, ba, b.term, b.term)
+	}
 	j := q(t.c.fresh("j"))
 	return fmt.Sprintf("(and (= (sl_len %s) (sl_len %s)) (forall ((%s Int)) (=> (and (<= 0 %s) (< %s (sl_len %s))) (= (select %s (ix (sl_off %s) %s)) (select %s (ix (sl_off %s) %s))))))",
 		a.term, b.term, j, j, j, a.term, aa, a.term, j, ba, b.term, j)
